@@ -423,10 +423,11 @@ SrvChoices ==
          ELSE {C("ok")}
               \* the single request upload is refused; the session keeps the first k units of the body
               \cup (IF Len(req.body) > 0 /\ ~refused /\ cf.refuse
-                    THEN {[a |-> "refuse", k |-> k, via |-> ""] : k \in 0..Len(req.body)} ELSE {})
+                    THEN {[a |-> "refuse", k |-> k, via |-> ""] : k \in (IF cf.part THEN 0..Len(req.body) ELSE {0})}
+                    ELSE {})
               \cup Faults({"f500l", "f503l", "rstl", "f500a", "f503a", "rsta"})
               \* the request breaks off late: a proper prefix of the body stays in the session
-              \cup (IF nFault < MaxFaults
+              \cup (IF nFault < MaxFaults /\ cf.part
                     THEN {[a |-> f, k |-> k, via |-> ""] : f \in {"f500a", "f503a", "rsta"}, k \in 1..(Len(req.body) - 1)}
                     ELSE {})
     [] req.m = "GET" -> {C("ok")} \cup (IF sess.open THEN Faults({"f500l", "f503l", "rstl"}) ELSE {})
